@@ -1,5 +1,9 @@
 // Process-wide trap recovery state shared by all translation units of the harness.
 #include "cut.hpp"
+#include "registry.hpp"
+
+DecConsts g_dc;
+std::vector<Clause>& registry() { static std::vector<Clause> r; return r; }
 
 sigjmp_buf g_jb;
 volatile sig_atomic_t g_in_call = 0;
